@@ -12,6 +12,9 @@ CLAIMED = {
  "C04": dict(level="exploration", technique="bounded-exhaustive differential execution (optimize off vs on) of enumerated programs with host-effect log",
    text="Every enumerated program with host effects, explicit failures and discarded bindings up to size 5 (quick) / 6 (thorough), the full product of 16 dead/live positions x 14 effectful or failing expressions (direct, through record fields, closures, partial applications, an imported module) and ordered pairs of them, and the C01 feature products are each compiled twice by the real pipeline and compared on value, failure and the sequence of host-function calls.",
    note="Differential on gluon itself; the only tolerated difference is computed exactly from the reference semantics (first j failing unused built-in arithmetic operations skipped).", ref="4.4"),
+ "C09": dict(level="exploration", technique="bounded-exhaustive enumeration of token/character strings, single-edit mutants of a corpus and nesting ramps, run through the real front end in watchdogged worker processes",
+   text="All token sequences up to length 4 (5 thorough) over three 16-token alphabets in three indentation patterns, all character strings up to length 3 (4) over 28 lexically interesting characters, every first-order mutant (delete / duplicate / swap token, truncate at every token and inside multi-byte characters, re-indent a line) of the .glu corpus of /repo and of generated programs, and nesting ramps to depth 256 are pushed through typecheck_str (lex, layout, parse, macro expansion, rename, typecheck) in child processes with a CPU-time watchdog; no panic, abort, stack overflow or hang; every error span inside its file on char boundaries; emit_string() renders.",
+   note="Exhaustive over short strings and single edits only; arbitrary 4 KiB text is not enumerable and not claimed. Corpus mutants go through the pipeline function typecheck_str delegates to (cross-checked through typecheck_str for findings).", ref="4.9"),
  "C12": dict(level="fault_enumeration", technique="bounded-exhaustive round trip of enumerated programs through real bytecode serialisation plus exhaustive truncation / undefined-reference fault enumeration in isolated processes",
    text="Every enumerated program up to size 5 (quick) / 6 (thorough) and the feature products is compiled to bytecode with the real compile_to_bytecode (serde_json), loaded and run in the same VM and in a fresh VM (dependencies imported first) and compared with the source run; each such module is also loaded into a VM without its dependencies (must be an error, not a crash). For a base set of ~22 programs EVERY truncation length of the serialised module and EVERY string leaf replaced by an undefined name is loaded in a worker process followed by a canary evaluation.",
    note="Only the serde_json route; corrupted modules that still deserialise may legitimately run; panics, crashes, hangs and an unusable VM are the violations.", ref="4.12"),
